@@ -989,6 +989,21 @@ theorem run_eq_plain_structured_dec (d : AMap Node) (h : List POp) (hd : inDomB 
     (brun d ((h.take n).map POp.render)).map encDoc = specRun (encDoc d) ((h.take n).map POp.spec) :=
   run_eq_plain_structured d h (inDomB_sound hd).1 (inDomB_sound hd).2 n
 
+/-- END TO END, pointer level → plain tree: compose `heap_run_refines` with `run_eq_plain`.  For every
+    history of builder calls on the root, on live and on detached handles, started in a well-formed
+    tree-shaped heap whose root abstracts to the valid document `d`, the AsMap of the root afterwards is
+    the plain tree after the corresponding structured edits. -/
+theorem heap_run_eq_plain (root : Ytk.Heap.Addr) (h h' : Ytk.Heap.Heap) (ops : List Ytk.Heap.HOp) (bops : List BOp)
+    (d : AMap Node) (hrun : Ytk.Heap.HandleRun root h ops bops h') (hi : Ytk.Heap.Inv h)
+    (hs : Ytk.Heap.SibSep h root) (hrl : root < h.size) (hd : Ytk.Heap.abs h root = some (.cont d))
+    (hv : (Node.cont d).Valid) (hh : ∀ op ∈ bops, op.ValuesValid ∧ op.PathOk) :
+    ∃ d', Ytk.Heap.abs h' root = some (.cont d') ∧
+      specRun (encDoc d) (bops.map toStructured) = .ok (encDoc d') := by
+  obtain ⟨_, _, _, _, d', hb, ha⟩ := heap_run_refines root h h' ops bops d hrun hi hs hrl hd
+  refine ⟨d', ha, ?_⟩
+  rw [← brun_eq_specRun bops d hv hh, hb]
+  rfl
+
 /-! ### each hypothesis is needed (kernel-checked) -/
 
 /-- the START DOCUMENT must be valid: with a literal key ending in an index group (D26's shape, no
@@ -996,7 +1011,10 @@ theorem run_eq_plain_structured_dec (d : AMap Node) (h : List POp) (hd : inDomB 
     list `l` to look into. -/
 theorem run_eq_plain_needs_valid_doc :
     (brun [("l[0]", Node.null)] [.remove "l[0]"]).map encDoc ≠
-      specRun (encDoc [("l[0]", Node.null)]) ([BOp.remove "l[0]"].map toStructured) := by
+      specRun (encDoc [("l[0]", Node.null)]) ([BOp.remove "l[0]"].map toStructured) ∧
+    -- … and its keys sorted (= a Go map, unique keys): `[b, a]` is no map, "replace member a" is undefined
+    (brun [("b", Node.null), ("a", Node.null)] [.listClear "a.x"]).map encDoc ≠
+      specRun (encDoc [("b", Node.null), ("a", Node.null)]) ([BOp.listClear "a.x"].map toStructured) := by
   decide +kernel
 
 /-- the VALUES must be valid: the same effect one level down, through a value that carries such a key -/
